@@ -24,7 +24,18 @@ def all_events(ctx):
     """Every event of every entry point, deduplicated by (kind, site, path)."""
     a = ctx.absint
     out = {}
+    called = set()
+    for callees in a.call_edges.values():
+        called |= callees
+    for f in ctx.prog.all_functions(include_dead=True):
+        if getattr(f.node, "_inlined_somewhere", False):
+            called.add(f.qualname)
     for entry, evs in a.entry_effects.items():
+        # private helpers are reached through their public callers (or were inlined there);
+        # one that nobody in the repository calls stays an entry of its own
+        nm = entry.rsplit(".", 1)[1]
+        if nm.startswith("_") and not nm.startswith("__") and entry in called:
+            continue
         for e in evs:
             k = (e.base(), e.guards)
             if k not in out:
@@ -131,14 +142,29 @@ def rule_F2(ctx):
 
 
 # ====================================================================== helpers for F3/F4
-def local_def(fnode, name):
-    """The single 'name = expr' definition of a local, else None."""
+import re as _re
+# result temporaries and renamed helper locals introduced by sa.inline
+_INLINED_NAME = _re.compile(r"^(__ret__\w+|\w+__[A-Za-z_]\w*\d+)$")
+
+
+def local_def(fnode, name, _depth=0):
+    """All 'name = expr' definitions of a local.  A definition that merely copies a result
+    temporary of the inlining pass (x = __ret__h3) is replaced by the assignments of that
+    temporary (minus its None initialisation), so a value computed in an inlined helper reads
+    as if it had been assigned to the caller's variable under the helper's own guards."""
     defs = []
     for n in ast.walk(fnode):
         if isinstance(n, ast.Assign):
             for t in n.targets:
                 if isinstance(t, ast.Name) and t.id == name:
-                    defs.append(n)
+                    v = n.value
+                    if isinstance(v, ast.Name) and _INLINED_NAME.match(v.id) and _depth < 4:
+                        inner = [d for d in local_def(fnode, v.id, _depth + 1) if not (
+                            isinstance(d, ast.Assign) and isinstance(d.value, ast.Constant)
+                            and d.value.value is None)]
+                        defs.extend(inner or [n])
+                    else:
+                        defs.append(n)
         elif isinstance(n, (ast.AugAssign, ast.AnnAssign)) and isinstance(n.target, ast.Name) \
                 and n.target.id == name:
             defs.append(n)
@@ -583,6 +609,58 @@ def rule_F7(ctx):
                 "calls get_unreachable_barriers afterwards: a workflow can complete (succeed) "
                 "with a partially satisfied join that can no longer run",
                 line=e.node.lineno))
+    return res
+
+
+# ====================================================================== F10
+def rule_F10(ctx):
+    """A workflow that the table has just made canceled is not turned into failed by the
+    unreachable-join override: the cancellation itself is what keeps the remaining branches
+    from satisfying their joins.  Every override site (status := failed under 'there are
+    unreachable barriers') must be guarded by a condition that excludes canceled."""
+    res = RuleResult("F10", "the unreachable-join override excludes a canceled workflow: it "
+                            "fires for succeeded / paused-and-finished completions only")
+    prog = ctx.prog
+    n = 0
+    seen_f10 = set()
+    for e in effects_of(ctx):
+        if e.path != ("WS", "status"):
+            continue
+        v = assigned_value(e)
+        try:
+            folded = prog.fold(v, e.func.module) if v is not None else None
+        except NotFoldable:
+            folded = None
+        own = [a for q, a in e.guards if q == e.func.qualname]
+        if folded != "failed" or not any(a[0] == "truthy" and "unreachable" in a[1] for a in own):
+            continue
+        n += 1
+        inst = (e.func.qualname, norm_src(e.node))
+        if inst in seen_f10:
+            continue
+        seen_f10.add(inst)
+        excluded = False
+        for a in own:
+            if a[0] == "==" and isinstance(a[2], str) and a[2] != "canceled" and "status" in a[1]:
+                excluded = True
+            if a[0] == "!=" and a[2] == "canceled" and "status" in a[1]:
+                excluded = True
+            if a[0] == "in" and isinstance(a[2], frozenset) and "canceled" not in a[2] \
+                    and "status" in a[1]:
+                excluded = True
+            if a[0] == "notin" and isinstance(a[2], frozenset) and "canceled" in a[2] \
+                    and "status" in a[1]:
+                excluded = True
+        if excluded:
+            res.holds(inst)
+        else:
+            res.violated(inst, site_finding(
+                "F10", e, "the unreachable-join override can replace a status the table has just "
+                "set to canceled by failed (guards: %s): a canceled workflow is reported failed "
+                "merely because the cancellation kept a join's other branches from completing"
+                % fmt_atoms([a for a in own if "status" in str(a[1]) and "current" not in str(a[1])])))
+    if not n:
+        raise AnalysisError("unreachable-join override (status := failed) not found")
     return res
 
 
